@@ -139,15 +139,29 @@ namespace vh {
     // escaping from traps, signals and the abort/unreachable hook
 
     inline sigjmp_buf jb;
+    inline volatile sig_atomic_t armed = 0;  // inside VH_RUN?
     inline char hook_msg[256];
     enum { RC_HOOK_ABORT = 1000, RC_HOOK_UNREACHABLE = 1001 };
 
     inline void hook(int kind, char const* m)
     {
+        if (!armed) {
+            fprintf(stderr, "\nHARNESS-FAULT: abort/unreachable outside VH_RUN: %s\n", m ? m : "");
+            _exit(70);
+        }
         snprintf(hook_msg, sizeof hook_msg, "%s", m ? m : "");
         siglongjmp(jb, kind == 0 ? RC_HOOK_ABORT : RC_HOOK_UNREACHABLE);
     }
-    inline void on_signal(int s) { siglongjmp(jb, s); }
+    inline void on_signal(int s)
+    {
+        if (!armed) {
+            // a fault in the harness itself, not in the code under test: fail loudly
+            char const msg[] = "\nHARNESS-FAULT: signal outside VH_RUN\n";
+            (void)!write(2, msg, sizeof msg - 1);
+            _exit(70);
+        }
+        siglongjmp(jb, s);
+    }
 
     inline void install()
     {
@@ -341,13 +355,18 @@ namespace vh {
     { \
         int vh_rc = sigsetjmp(vh::jb, 1); \
         if (vh_rc == 0) { \
+            vh::armed = 1; \
             try { \
                 auto vh_z = (EXPR); \
+                vh::armed = 0; \
                 PRINT(vh_z); \
             } catch (std::overflow_error const& vh_e) { \
+                vh::armed = 0; \
                 vh::print_throw(vh_e); \
             } \
-        } else \
+        } else { \
+            vh::armed = 0; \
             vh::print_fail(vh_rc); \
+        } \
         putchar('\n'); \
     }
